@@ -7,13 +7,13 @@ import (
 	"encoding/json"
 	"flag"
 	"fmt"
-	"sort"
 	"go/ast"
 	"go/parser"
 	"go/printer"
 	"go/token"
 	"os"
 	"path/filepath"
+	"sort"
 	"strings"
 )
 
@@ -68,22 +68,22 @@ func main() {
 		changed := false
 		// tick
 		if doTick {
-		ast.Inspect(f, func(n ast.Node) bool {
-			var body *ast.BlockStmt
-			switch s := n.(type) {
-			case *ast.ForStmt:
-				body = s.Body
-			case *ast.RangeStmt:
-				body = s.Body
-			}
-			if body != nil {
-				call := &ast.ExprStmt{X: &ast.CallExpr{Fun: &ast.SelectorExpr{X: ast.NewIdent("zzverifrt"), Sel: ast.NewIdent("Tick")}}}
-				body.List = append([]ast.Stmt{call}, body.List...)
-				changed = true
-				nt++
-			}
-			return true
-		})
+			ast.Inspect(f, func(n ast.Node) bool {
+				var body *ast.BlockStmt
+				switch s := n.(type) {
+				case *ast.ForStmt:
+					body = s.Body
+				case *ast.RangeStmt:
+					body = s.Body
+				}
+				if body != nil {
+					call := &ast.ExprStmt{X: &ast.CallExpr{Fun: &ast.SelectorExpr{X: ast.NewIdent("zzverifrt"), Sel: ast.NewIdent("Tick")}}}
+					body.List = append([]ast.Stmt{call}, body.List...)
+					changed = true
+					nt++
+				}
+				return true
+			})
 		}
 		// wrap
 		var extra []ast.Decl
